@@ -37,6 +37,11 @@ RequestsMounted(reqs, s) ==
      \E i \in DOMAIN s.mounts : /\ s.mounts[i].dest = reqs[r].abs /\ s.mounts[i].type = "bind"
                                 /\ s.mounts[i].ro /\ s.mounts[i].src = reqs[r].real
 
+\* whatever is requested (also through symlinks that resolve to a reserved path), nothing but the
+\* sandbox's own mount occupies a reserved destination: at most one mount there, no shadowing
+ReservedUnshadowed(s) ==
+  \A p \in Reserved : Cardinality({i \in DOMAIN s.mounts : s.mounts[i].dest = p}) <= 1
+
 SpecOK(e) ==
   LET collide == \E r \in DOMAIN e.reqs : e.reqs[r].abs \in Reserved
       missing == \E r \in DOMAIN e.reqs : ~e.reqs[r].exists
@@ -44,6 +49,7 @@ SpecOK(e) ==
      ELSE IF e.err THEN missing                      \* nothing else but a missing path is refused
      ELSE /\ ~missing
           /\ LockedDown(e.spec) /\ ParentsFirst(e.spec) /\ RequestsMounted(e.reqs, e.spec)
+          /\ ReservedUnshadowed(e.spec)
 
 \* prepareMountPoints(rootfs, mounts): a destination that would leave the root is rejected
 \* (escapes = the driver's own lexical resolution of rootfs/destination leaves rootfs)
